@@ -43,6 +43,10 @@ func genWire(t *rapid.T) WireCase {
 	for i := 0; i < n; i++ {
 		c.Msgs = append(c.Msgs, refwire.GenMsg(t, refwire.GenOpts{ClientEmits: true, FixedExtIDs: c.RTrip, MaxPayload: 8192}))
 	}
+	// repeat earlier messages (a duplicate request on one connection is answered with reject, not data)
+	for k := rapid.IntRange(0, 2).Draw(t, "ndup"); k > 0 && len(c.Msgs) > 0; k-- {
+		c.Msgs = append(c.Msgs, c.Msgs[rapid.IntRange(0, len(c.Msgs)-1).Draw(t, "dupOf")])
+	}
 	c.Reads = refwire.GenSchedule(t, "reads")
 	c.Reads2 = refwire.GenSchedule(t, "reads2")
 	if rapid.IntRange(0, 4).Draw(t, "fail") == 0 {
@@ -267,7 +271,7 @@ func runWire(c WireCase) core.Result {
 	}()
 	// waitFrames blocks until the remote has n complete frames (or the injected fault has cut the stream).
 	waitFrames := func(n int) bool {
-		deadline := time.Now().Add(10 * time.Second)
+		deadline := time.Now().Add(4 * time.Second)
 		for time.Now().Before(deadline) {
 			capMu.Lock()
 			fr, _ := refwire.SplitFrames(captured)
@@ -287,7 +291,7 @@ func runWire(c WireCase) core.Result {
 			// choke discards piece messages still queued in the writer (documented); wait until everything
 			// sent so far is on the wire so that the expected stream is deterministic.
 			if !waitFrames(i) {
-				return core.Failf("after 10 s the remote has fewer than the %d frames sent so far", i)
+				return core.Failf("after 4 s the remote has fewer than the %d frames sent so far", i)
 			}
 		}
 		send(w, m)
@@ -296,7 +300,7 @@ func runWire(c WireCase) core.Result {
 		capMu.Lock()
 		fr, _ := refwire.SplitFrames(captured)
 		capMu.Unlock()
-		return core.Failf("after 10 s the remote has %d complete frames; %d messages were sent", len(fr), len(c.Msgs))
+		return core.Failf("after 4 s the remote has %d complete frames; %d messages were sent", len(fr), len(c.Msgs))
 	}
 	// The writer reports each block after the write returns; give the report time to arrive before stopping
 	// (a report racing with Stop is dropped by design: the peer is gone). Converging late is fine, not converging is not.
